@@ -32,6 +32,7 @@ func (fc *FuncCtx) execInstr(fr *Frame, st *State, ins ssa.Instruction) {
 		hk := v.heapKeyFor(elem)
 		st.globals[hk] = c.Store(v.getGlobal(st, hk), ref, v.tm.ZeroOf(so))
 		fr.vals[t] = Val{T: ref, GoT: t.Type()}
+		fc.heapAllocs[t] = ref
 	case *ssa.Store:
 		loc := fc.asLoc(fr, st, t.Addr, t.Pos())
 		val := fc.valOf(fr, t.Val)
@@ -253,6 +254,9 @@ func (fc *FuncCtx) execUnOp(fr *Frame, st *State, t *ssa.UnOp) {
 		}
 		val := v.load(st, loc)
 		fr.vals[t] = Val{T: val, GoT: t.Type(), Origin: loc}
+		if isSliceSort(val.Sort) {
+			st.assume(c, c.Cmp("<=", c.Int(0), c.FieldOf(val, 1)))
+		}
 		if loc.Cell == nil {
 			v.assumeTyped(st, val, t.Type(), nil)
 		}
